@@ -475,6 +475,10 @@ fn offer(s: &mut Suite, origin: &str, der: &[u8], tie_model: bool) -> Option<Cer
 		// bytes the third-party parser refuses outright (its own strictness, e.g. non-zero padding
 		// bits) never reach rcgen's code: both sides must refuse, the error kind is the parser's
 		let both_refuse = parsed_by_third_party.is_none() && real == "(err CouldNotParseCertificationRequest)" && model.starts_with("(err ");
+		// ... and where the specification's typed decoder cannot read a field at all (the model then
+		// answers CouldNotParseCertificationRequest) the third-party parser may still hand rcgen
+		// something it refuses for a reason of its own: both refuse, the kind is not compared
+		let both_refuse = both_refuse || (model == "(err CouldNotParseCertificationRequest)" && real.starts_with("(err "));
 		if model != real && !both_refuse {
 			s.rep.disagree("C06:parse-csr", "model and implementation differ on CSR parsing", format!("request: {}\nreal:  {}\nmodel: {}", line, real, model));
 		}
@@ -659,6 +663,15 @@ pub fn run(ctx: &mut Ctx) -> Report {
 		}
 	}
 	s.rep.exhaustive.push("edge requests (Ed25519 / RSA, correctly signed): 23 attribute shapes (two extension requests, two values, repeated extensions, key usage values with unnamed / no / trailing zero bits) and 15 SubjectPublicKeyInfo encodings (unused bits, long-form lengths, constructed BIT STRING, key declared as another kind)".into());
+	// --- grammar-aware shapes: correctly signed requests sweeping every known extension, name and
+	// attribute shape (the same ones C10 uses for panics), here tied to the model and issued from
+	for (name, der) in crate::props::shapes::requests() {
+		s.rep.count("shape_requests");
+		if let Some(pp) = offer(&mut s, &format!("shape:{}", name), &der, true) {
+			issue_and_check(&mut s, &format!("shape:{}", name), &der, pp, None);
+		}
+	}
+	s.rep.exhaustive.push("shape requests: ~780 correctly signed requests, one varied field each (every known extension at its edges, names with every string tag x 18 contents, attribute types with large and malformed identifiers)".into());
 	s.rep.exhaustive.push("hand-built signed requests: 5 subject shapes (incl. RDNs of 2 and 3 attributes) x 11 extension-request shapes (supported, each/any standard EKU, unknown EKU alone / with any / with serverAuth, basicConstraints, private extension)".into());
 	// --- mutation sweep over accepted requests (implementation vs oracle only)
 	let budget = if s.ctx.thorough { 20 } else { 5 };
